@@ -9,6 +9,7 @@ import multiprocessing, os, traceback
 import prudp_session as ps
 import crash_session as cs
 import l1_corr
+import c02_ended_check
 
 LEVEL = "proof"
 MARGIN = 0.06      # two one-way delays + slack
@@ -197,7 +198,14 @@ def run(ctx):
                 "exactly (resend_limit+1)*resend_timeout, late sends raise closed, server table empties, the address reconnects; each run is "
                 "replayed through the Lean L1 model tick-exactly; plus a forceful local close() on either side while recv / recv_unreliable are pending in other tasks "
                 "(released at once locally, within one delay at the peer; later recv raises end-of-stream), and a keyed server refusing the login (wrong key, "
-                "expired, garbage ticket), an incompatible peer that answers SYN and CONNECT at packet level (ticket presented to a keyless port; no credentials at a keyed port), and a server handler that ends with an exception (end-of-stream escaping its receive loop, a rejected request), the client's connection block left by cancellation (a time-out scope) while tasks outside the block are blocked on the connection ; 150 unreliable datagrams nobody reads followed by ordinary traffic; a recv pending on every configured substream when fewer were negotiated; two clients on one port where one connection ends (gracefully, by silence, kicked) before the other's link dies — each followed by a new working connection from the same address; distinct non-trivial = distinct (configuration, k, mode)")
+                "expired, garbage ticket), an incompatible peer that answers SYN and CONNECT at packet level (ticket presented to a keyless port; no credentials at a keyed port), and a server handler that ends with an exception (end-of-stream escaping its receive loop, a rejected request), the client's connection block left by cancellation (a time-out scope) while tasks outside the block are blocked on the connection ; 150 unreliable datagrams nobody reads followed by ordinary traffic; a recv pending on every configured substream when fewer were negotiated; two clients on one port where one connection ends (gracefully, by silence, kicked) before the other's link dies — each followed by a new working connection from the same address; "
+                "big transfers: a message / RMC request body / RMC response body of 65..255 fragments sent by either side, all at one instant or through a congested socket (fragments still to send), "
+                "the link dying after the k-th datagram of the transfer in mode both / c2s / s2c: send and the remote call return or raise within the bound, a second sender on the substream is not left behind the send lock, "
+                "controls to a live peer (also with one fragment lost once) delivered intact; "
+                "ended-without-the-peer-learning: a local close() whose three DISCONNECTs fall into a burst loss, or an outage (either direction / both) during which the side with the smaller budget gives up, "
+                "while the ended connection object stays registered (application inside its async-with block / handler busy) and the link works again: the survivor's recv, recv_unreliable, pending remote call "
+                "are released, the handler returns and the server's table is empty within ping_timeout+(resend_limit+1)*resend_timeout of that instant; resend_limit 0..4 x v0/v1; "
+                "distinct non-trivial = distinct (configuration, k, mode) / (configuration, scenario parameters)")
     base = dict(fragment_size=16, resend_timeout=0.5, ping_timeout=1.0)
     cfgs = []
     if quick:
@@ -272,6 +280,11 @@ def run(ctx):
                      tag="%s%s:%s:connect-%s" % ("lite" if cfgd.get("transport") == "lite" else "v%d" % cfgd["version"], ":rmc" if cfgd.get("rmc") else "", kill[1] if kill else "reference", stats.get("connect")),
                      sample={"cfg": cfgd, "kill": kill, "ops": [[o[0], round(o[1], 3), None if o[2] is None else round(o[2], 3), o[3]] for o in se.ops][:12],
                              "model_lines": r.get("lines")} if idx % 97 == 0 else None)
+        # big transfers in flight when the peer dies; one side's connection ended without the other learning of it (harness/c02_ended*.py)
+        nd2, first2 = c02_ended_check.run_families(ctx, pool, drv.exe)
+        ndiff += nd2
+        if first is None:
+            first = first2
     ctx.exhaustive = not quick
     ctx.extra["l1_session_diffs"] = ndiff
     if ndiff and not ctx.violations:
